@@ -155,6 +155,16 @@ def evaluate(kind, case, acc):
             acc.fail(kind, f"{fam_label}:score-not-decreasing", case, expected=f"< {prev}", got={"tag": t, "score": r[3]})
             break
         prev = r[3]
+    # a wheel with several platform tags scores like its best tag, in whatever order they are written
+    if len(raw) >= 3:
+        i, j = 0, len(raw) // 2
+        want = spec.compatibility(["py3"], ["none"], [raw[i]])
+        for tags in ([raw[j], raw[i]], [raw[i], raw[j]], [raw[-1], "any", raw[i]], ["any", raw[j]]):
+            r = spec.compatibility(["py3"], ["none"], tags)
+            exp_r = want if raw[i] in tags else spec.compatibility(["py3"], ["none"], [raw[j]])
+            if r != exp_r:
+                acc.fail(kind, f"{fam_label}:multi-tag-wheel-not-scored-by-its-best-tag", case, expected=exp_r, got={"tags": tags, "score": r})
+                break
     for foreign in ("win_ia64", "manylinux_2_99_" + (c[3] if c[0] != "name" else "x86_64"), "macosx_99_0_universal2", "musllinux_1_99_x86_64", "linux_sparc"):
         if foreign not in raw and spec.compatibility(["py3"], ["none"], [foreign]) is not None:
             acc.fail(kind, f"{fam_label}:foreign-tag-accepted", case, expected=None, got=foreign)
